@@ -129,6 +129,11 @@ for pol in ("fifo", "lru", "lfu"):
             for ng in (1, 2, 3):
                 add(fid, "gate", "async", policy=pol, limit=lim, ttl=ttl, tags=("t",), gates=ng)
                 fid += 1
+# a resumed store must be a replacement when somebody else stored the key meanwhile: needs room for an unrelated entry
+for pol in ("fifo", "lru"):
+    for ng in (1, 2):
+        add(fid, "gate", "async", policy=pol, limit=2, tags=("t",), gates=ng)
+        fid += 1
 # --- metadata corpus: every assignment of tags/events/dependencies ⊆ {x, y}
 fid = 5000
 SUBS = [(), ("x",), ("y",), ("x", "y")]
